@@ -82,6 +82,47 @@ impl<'de> Deserialize<'de> for BMap {
     }
 }
 
+/// map with a bounded visitor and an arbitrary value type
+#[derive(Debug, PartialEq)]
+pub struct BMapV<T>(pub usize, PhantomData<T>);
+impl<'de, T: Deserialize<'de>> Deserialize<'de> for BMapV<T> {
+    fn deserialize<D: serde::Deserializer<'de>>(d: D) -> Result<Self, D::Error> {
+        struct V<T>(PhantomData<T>);
+        impl<'de, T: Deserialize<'de>> Visitor<'de> for V<T> {
+            type Value = BMapV<T>;
+            fn expecting(&self, f: &mut fmt::Formatter) -> fmt::Result {
+                f.write_str("a map")
+            }
+            fn visit_map<A: MapAccess<'de>>(self, mut map: A) -> Result<Self::Value, A::Error> {
+                let mut n = 0;
+                while let Some((_, _)) = map.next_entry::<String, T>()? {
+                    n += 1;
+                    if n > SEQ_LIMIT {
+                        ENDLESS.with(|e| e.set(true));
+                        return Err(serde::de::Error::custom("ENDLESS MAP"));
+                    }
+                }
+                Ok(BMapV(n, PhantomData))
+            }
+        }
+        d.deserialize_map(V(PhantomData))
+    }
+}
+
+/// a tuple struct without fields: its visitor takes no element of the sequence it is offered
+#[derive(Deserialize, Debug, PartialEq)]
+pub struct EmptyTuple();
+
+#[derive(Deserialize, Debug, PartialEq)]
+pub struct SEmptySeqs {
+    #[serde(default)]
+    a: [u8; 0],
+    #[serde(default = "empty")]
+    b: BVec<[u8; 0]>,
+    #[serde(default)]
+    c: Option<EmptyTuple>,
+}
+
 // ------------------------------------------------------------------------------------------------
 // Target types: field / variant names a, b, c, x, $text, $value so that the tokens hit them
 
@@ -276,10 +317,11 @@ pub struct SLazy {
     b: Option<Lazy<0>>,
 }
 
-pub const TARGETS: [&str; 34] = [
+pub const TARGETS: [&str; 45] = [
     "SAttr", "SReq", "SLists", "SText", "STextList", "Ch", "SValue", "SValueVec", "SValueTuple", "SValueString", "SIgnored", "NStr",
     "NStruct", "UnitS", "SPrims", "UnitOnly", "SEnumFields", "SNestedSeq", "BVec<Ch>", "BVec<String>", "BVec<Option<String>>",
     "(String,u8)", "Option<SAttr>", "()", "BMap", "String", "IgnoredAny", "Lazy<1>", "Lazy<0>", "BVec<Lazy<1>>", "BVec<Lazy<0>>", "SLazy", "SOptValue", "SOptHolder",
+    "BMapV<[u8;0]>", "BMapV<()>", "BMapV<EmptyTuple>", "BMapV<BVec<String>>", "BMapV<(String,String)>", "((),())", "(IgnoredAny,IgnoredAny)", "BVec<()>", "BVec<[u8;0]>", "SEmptySeqs", "BMapV<UnitS>",
 ];
 
 fn de_any<T: DeserializeOwned>(input: &[u8], via_reader: bool, piece: usize) -> Result<bool, String> {
@@ -338,6 +380,17 @@ pub fn de_target(t: usize, input: &[u8], via_reader: bool, piece: usize) -> Resu
         31 => de_any::<SLazy>(input, via_reader, piece),
         32 => de_any::<SOptValue>(input, via_reader, piece),
         33 => de_any::<SOptHolder>(input, via_reader, piece),
+        34 => de_any::<BMapV<[u8; 0]>>(input, via_reader, piece),
+        35 => de_any::<BMapV<()>>(input, via_reader, piece),
+        36 => de_any::<BMapV<EmptyTuple>>(input, via_reader, piece),
+        37 => de_any::<BMapV<BVec<String>>>(input, via_reader, piece),
+        38 => de_any::<BMapV<(String, String)>>(input, via_reader, piece),
+        39 => de_any::<((), ())>(input, via_reader, piece),
+        40 => de_any::<(IgnoredAny, IgnoredAny)>(input, via_reader, piece),
+        41 => de_any::<BVec<()>>(input, via_reader, piece),
+        42 => de_any::<BVec<[u8; 0]>>(input, via_reader, piece),
+        43 => de_any::<SEmptySeqs>(input, via_reader, piece),
+        44 => de_any::<BMapV<UnitS>>(input, via_reader, piece),
         _ => Err("bad target".into()),
     }
 }
@@ -442,6 +495,15 @@ fn call(acc: &mut Acc, order: (u32, u64), input: &[u8], t: usize, via_reader: bo
             // unread; the next consumer starts in the middle of it
             acc.known("F11", || format!("{:?} as {}: {}", lossy(input), TARGETS[t], what));
         }
+        Err(what)
+            if known.is_open("F16")
+                && what.starts_with("endless sequence")
+                && matches!(TARGETS[t], "BMapV<[u8;0]>" | "BMapV<EmptyTuple>" | "BVec<[u8;0]>") =>
+        {
+            // F16: a sequence visitor that takes no element (zero-length array / tuple struct) as the value of a
+            // map without duplicate detection: the element is never consumed and the map never ends
+            acc.known("F16", || format!("{:?} as {}: {}", lossy(input), TARGETS[t], what));
+        }
         Err(what) => {
             if std::env::var("QXMC_TRIAGE").is_ok() {
                 let loc = what.rsplit(" @ ").next().unwrap_or("").to_string();
@@ -494,12 +556,37 @@ pub fn run(ctx: &Ctx) {
         }
         acc.nt_count += 1;
         for tt in 0..nt {
+            // the targets added for F16 (zero-consumption visitors; each endless case costs 4096 rounds) one token shallower
+            if tt >= 34 && d.len() as u32 >= n {
+                continue;
+            }
             call(acc, (0, i), doc.as_bytes(), tt, false, 0, &known);
             for &p in pieces {
                 call(acc, (0, i), doc.as_bytes(), tt, true, p, &known);
             }
         }
         acc.sample(seed, i, || json!({"document": doc}));
+    });
+
+    // nesting soup: longer sequences over the six tokens that decide nesting, into the targets that skip
+    // content (unit, IgnoredAny, unknown fields, tuples of them) or count on matched tags
+    const NEST: [&str; 6] = ["<a>", "</a>", "<b>", "</b>", "t", "<a/>"];
+    const NEST_TARGETS: [usize; 14] = [0, 2, 10, 13, 22, 23, 24, 26, 35, 39, 40, 41, 43, 44];
+    let nn = t.pick(6, 8);
+    ctx.layer("nesting_soup", 3, count_upto(6, nn), json!({"tokens": NEST, "max_tokens": nn, "targets": NEST_TARGETS.iter().map(|&t| TARGETS[t]).collect::<Vec<_>>()}), |i, acc| {
+        let mut d = Vec::new();
+        decode_upto(6, nn, i, &mut d);
+        let mut doc = String::new();
+        for &x in &d {
+            doc.push_str(NEST[x as usize]);
+        }
+        acc.nt_count += 1;
+        for &tt in &NEST_TARGETS {
+            call(acc, (3, i), doc.as_bytes(), tt, false, 0, &known);
+            for &p in pieces {
+                call(acc, (3, i), doc.as_bytes(), tt, true, p, &known);
+            }
+        }
     });
 
     // documents in a non-UTF-8 encoding (owned, re-encoded content in the deserializer), `full` build only
